@@ -331,3 +331,104 @@ Example ex_skipping_empty_txs_would_drop_genuine_data :
   [ (7, PNil, [EHeader 1 7; EData 5 7], [PEHeader 1 7; PEData 5 7 [7; 7]], 8);
     (8, PFuture, [], [], 8) ].
 Proof. vm_compute. reflexivity. Qed.
+
+(* ==== the signature payload of headers: chains with their own SignaturePayloadProvider ===================
+   [conf] = the provider the node is configured with (ManagerOptions.SignaturePayloadProvider; 0 = the default,
+   any other number = a chain-specific one); [xda] = the DA described by what was POSTED: every SignedHeader
+   blob with who signed it and over which provider's payload (hdpost), everything else as before. *)
+
+(* A header blob is admitted by a node iff it is genuine for the node's chain: signed by the proposer over the
+   payload the chain's provider defines — whatever that provider is. *)
+Theorem C09_header_admitted_iff_genuine_full : forall (conf : scheme) (hp : hdpost),
+  (hd_genuineb conf hp = true -> view_hd VConfigured conf hp = PHeader (hd_id hp)) /\
+  (hd_genuineb conf hp = false -> view_hd VConfigured conf hp = PJunk junk_bad_header).
+Proof. exact header_admitted_iff_thm. Qed.
+Print Assumptions C09_header_admitted_iff_genuine_full.
+
+Theorem C09_genuine_header_admitted_full : forall (conf : scheme) (hp : hdpost) (m : txdecode),
+  hd_genuineb conf hp = true -> classify m (view VConfigured conf (XHeader hp)) = BHeader (hd_id hp).
+Proof. exact genuine_header_admitted_thm. Qed.
+Print Assumptions C09_genuine_header_admitted_full.
+
+(* Every iteration of every run of a node with ANY configured provider hands over, on a successful fetch, exactly
+   the genuine unseen headers of its chain and the genuine unseen data of its height in DA order, and nothing
+   otherwise. *)
+Theorem C09_hands_over_posted_headers_full : forall (conf : scheme) (c : cfg) (xda : list xhpost) (h : list item),
+  Forall (xhanded_ok VConfigured conf c xda) (iterations c (da_of DCopyAll (pda_of VConfigured conf xda)) h).
+Proof. exact hands_over_headers_thm. Qed.
+Print Assumptions C09_hands_over_posted_headers_full.
+
+Theorem C09_ticks_hands_over_posted_headers_full :
+  forall (conf : scheme) (c : cfg) (xda : list xhpost) (tick : bool) (ts : list turn),
+  Forall (xhanded_ok VConfigured conf c xda)
+         (literations RNonBlocking c (linit c (da_of DCopyAll (pda_of VConfigured conf xda)) tick) ts).
+Proof. exact ticks_hands_over_headers_thm. Qed.
+Print Assumptions C09_ticks_hands_over_posted_headers_full.
+
+(* No height is skipped: every height below the final cursor was passed by a loop iteration that handed over
+   exactly the chain's posted events of that height. *)
+Theorem C09_no_skip_headers_full : forall (conf : scheme) (c : cfg) (xda : list xhpost) (h : list item) (n : N),
+  boot c <= n < s_cursor (final c (da_of DCopyAll (pda_of VConfigured conf xda)) h) ->
+  exists r, In r (iterations c (da_of DCopyAll (pda_of VConfigured conf xda)) h) /\ i_height r = n /\ i_next r = n + 1 /\
+            i_loop r = true /\ i_result r = PNil /\
+            (last (i_classes r) AError = ASuccess \/ last (i_classes r) AError = ANotFound) /\
+            map erase (handed DCopyAll c (pda_of VConfigured conf xda) r) = i_events r /\
+            handed DCopyAll c (pda_of VConfigured conf xda) r =
+            (if succeeded (i_classes r) then xposted_events conf c n (xcontent c xda n) else []).
+Proof. exact headers_no_skip_thm. Qed.
+Print Assumptions C09_no_skip_headers_full.
+
+Theorem C09_ticks_no_skip_headers_full :
+  forall (conf : scheme) (c : cfg) (xda : list xhpost) (tick : bool) (ts : list turn) (n : N),
+  boot c <= n < s_cursor (l_scan (fst (lrun RNonBlocking c (linit c (da_of DCopyAll (pda_of VConfigured conf xda)) tick) ts))) ->
+  exists r, In r (literations RNonBlocking c (linit c (da_of DCopyAll (pda_of VConfigured conf xda)) tick) ts) /\
+            i_height r = n /\ i_next r = n + 1 /\ i_loop r = true /\ i_result r = PNil /\
+            (last (i_classes r) AError = ASuccess \/ last (i_classes r) AError = ANotFound) /\
+            map erase (handed DCopyAll c (pda_of VConfigured conf xda) r) = i_events r /\
+            handed DCopyAll c (pda_of VConfigured conf xda) r =
+            (if succeeded (i_classes r) then xposted_events conf c n (xcontent c xda n) else []).
+Proof. exact ticks_headers_no_skip_thm. Qed.
+Print Assumptions C09_ticks_no_skip_headers_full.
+
+(* a genuine unseen header of the chain among the posts of a height is among that height's posted events *)
+Theorem C09_posted_header_is_due_full : forall (conf : scheme) (c : cfg) (daH : N) (xs : list xpost) (hp : hdpost),
+  In (XHeader hp) xs -> hd_genuineb conf hp = true -> mem (hd_id hp) (c_seen_h c) = false ->
+  In (PEHeader (hd_id hp) daH) (xposted_events conf c daH xs).
+Proof. exact xposted_header_in. Qed.
+Print Assumptions C09_posted_header_is_due_full.
+
+(* on a chain with the default provider a lost verifier changes nothing (why tests on default chains cannot see it) *)
+Theorem C09_fallback_invisible_on_default_chain_full : forall x : xpost,
+  view VFallback default_scheme x = view VConfigured default_scheme x.
+Proof. exact fallback_same_on_default_chain. Qed.
+Print Assumptions C09_fallback_invisible_on_default_chain_full.
+
+(* ---- non-vacuity: a chain whose header signatures cover a chain-specific payload (provider 1) ----------- *)
+Definition hd_by (id : N) (signer : bool) (s : scheme) : xpost :=
+  XHeader {| hd_id := id; hd_signer := signer; hd_sigfor := Some s |}.
+(* height 7: junk, two genuine headers of the chain (proposer, payload 1), a header the proposer signed over the
+   DEFAULT payload (not valid on this chain), a forgery (foreign key) over the chain's payload, genuine data *)
+Definition hx_da : list xhpost :=
+  [ {| xp_posts := [XPost (PJunk 1); hd_by 1 true 1; hd_by 2 true 1; hd_by 3 true 0; hd_by 4 false 1; XPost (gen_sd 5 [3; 0])];
+       xp_outs := [OOk] |} ].
+
+Example ex_custom_payload_headers_handed_over :
+  map (fun r => (i_height r, i_result r, handed DCopyAll wit_cfg (pda_of VConfigured 1 hx_da) r, i_next r))
+      (iterations wit_cfg (da_of DCopyAll (pda_of VConfigured 1 hx_da)) [ISignal]) =
+  [ (7, PNil, [PEHeader 1 7; PEHeader 2 7; PEData 5 7 [3; 0]], 8); (8, PFuture, [], 8) ].
+Proof. vm_compute. reflexivity. Qed.
+
+Example ex_custom_payload_headers_due :
+  xposted_events 1 wit_cfg 7 (xcontent wit_cfg hx_da 7) = [PEHeader 1 7; PEHeader 2 7; PEData 5 7 [3; 0]].
+Proof. vm_compute. reflexivity. Qed.
+
+(* NOT the code: were the node's provider not on the header object when ValidateBasic runs (installed before a
+   decode that overwrites the receiver), the signatures would be checked against the default payload: the two
+   genuine headers of an examined height are never handed to sync, a header that is not valid on this chain is,
+   and the cursor moves on.  The premise VConfigured of the theorems above is what the correspondence check
+   compares with the real handlePotentialHeader on chains with chain-specific providers. *)
+Example ex_lost_verifier_would_drop_genuine_headers :
+  map (fun r => (i_height r, i_result r, handed DCopyAll wit_cfg (pda_of VFallback 1 hx_da) r, i_next r))
+      (iterations wit_cfg (da_of DCopyAll (pda_of VFallback 1 hx_da)) [ISignal]) =
+  [ (7, PNil, [PEHeader 3 7; PEData 5 7 [3; 0]], 8); (8, PFuture, [], 8) ].
+Proof. vm_compute. reflexivity. Qed.
